@@ -87,6 +87,15 @@ CONSTANT ShtabBreaksDefaults    \* the root parsers that own a class-typed argum
 (*            sel       --<cls>=<class spec with init_args> (a valid       *)
 (*                      option; what a later config would inherit from if  *)
 (*                      previous_config leaked)                            *)
+(*            dc1 dcn dcd   options of a DATACLASS-typed argument: one     *)
+(*                      nested field, several nested fields, the whole     *)
+(*                      group as a dict (valid options; since fix 9ea59ee  *)
+(*                      nothing of them stays on the action,               *)
+(*                      _typehints.py:1033-1036); cfgdc: --cfg <config     *)
+(*                      that sets the dataclass group> (same as cfg);      *)
+(*                      dg1 dgn: the same on a dataclass argument added    *)
+(*                      with add_argument(type=Data), which is expanded    *)
+(*                      into one plain option per field                    *)
 (*            ncls      --<cls>.<init_arg>=v: parse_object of a throw-away *)
 (*                      class parser (_typehints.py:1440), no residue      *)
 (*   sub    "none" or the sub-command token; sitems its argv items         *)
@@ -99,8 +108,9 @@ CONSTANT ShtabBreaksDefaults    \* the root parsers that own a class-typed argum
 (*   late   "ok" | "fail": links / validation after the print point fail   *)
 (*   spec   parse_string / parse_path / parse_object: the configuration    *)
 (*          holds a class spec for the class-typed key: "full", "short"    *)
-(*          (init_args without class_path) or "none".  A hint for the      *)
-(*          concretisation; the Alg program is the same.                   *)
+(*          (init_args without class_path), "dc1" / "dcn" (one / several   *)
+(*          fields of the dataclass-typed argument) or "none".  A hint for *)
+(*          the concretisation; the Alg program is the same.               *)
 (*   ser    dump only: some action.serialize runs (sets dump_kwargs); dkv  *)
 (*          the code of the dump kwargs                                    *)
 (***************************************************************************)
@@ -124,7 +134,8 @@ StopOutcome(o, it) == IF it \in {"help", "clshelp"} THEN "exit0:help" ELSE IF it
 RefRequested(o) == o.m = "parse_args" /\ (HasBefore(o.items, "pc", 0) \/ (o.sub # "none" /\ HasBefore(o.sitems, "pc", 0)))
 \* --cfg after --print_config (both before anything stops the loop): the nested parse of the config text reaches a
 \* print point first; the answer is of the same class (the configuration is printed, exit 0)
-PcThenCfg(its, lim) == \E i \in 1..(lim - 1) : \E j \in (i + 1)..(lim - 1) : its[i] = "pc" /\ its[j] = "cfg"
+IsCfg(x) == x \in {"cfg", "cfgdc"}
+PcThenCfg(its, lim) == \E i \in 1..(lim - 1) : \E j \in (i + 1)..(lim - 1) : its[i] = "pc" /\ IsCfg(its[j])
 RefOutcome(o) ==
   IF o.m \notin ParseMethods THEN (IF o.pre = "fail" THEN "raise" ELSE "return")
   ELSE IF o.pre = "fail" THEN ErrCh(o)
@@ -177,11 +188,13 @@ Items(o, its, k, lvl) ==
       [] it = "help"    -> <<Exit0("help")>>                                                           \* argparse._HelpAction
       [] it = "shtab"   -> <<Enter("shtab_ctx", "shell"), I("shtabrun", o.p, "", "", ""), Exit0("shtab")>>     \* ShtabAction.__call__, _completions.py:98-109, :130
       [] it = "clshelp" -> <<ReadU("args:" \o (IF lvl = "root" THEN o.p ELSE SubName(o.p, lvl))), Exit0("help")>>   \* _actions.py:414-418
-      [] it = "cfg"     -> <<Enter("single_subcommand", "false"), Enter("previous_config", "cfg"), Enter("apply_config_skip", "true"),
+      [] IsCfg(it)      -> <<Enter("single_subcommand", "false"), Enter("previous_config", "cfg"), Enter("apply_config_skip", "true"),
                              Enter("load_value_mode", "mode"), Leave>>                                 \* _actions.py:191-205, _core.py:667-668
                            \o (IF lvl = "root" THEN <<PrintPt(o.p, "none", "none", ErrCh(o))>> ELSE << >>)         \* parse_string -> _parse_common:375
                            \o <<Leave, Leave, Leave>> \o rest
-      [] OTHER          -> rest                                                                       \* ok / unk: no residue, no manager
+      [] it \in {"dc1", "dcn"} -> <<SetU("pk", "env=None,defaults=True"), SetU("sap", "inner")>> \o rest   \* a nested dataclass option is a parse_args of a
+                                                                                                      \* throw-away class parser (_typehints.py:1045-1047): both variables keep ITS values
+      [] OTHER          -> rest                                                                       \* ok / unk / sel / dcd: no residue, no manager
 
 \* parse_known_args of parser `pn`: _core.py:299-310.  `after` is what follows when no item stops the loop.
 Known(o, pn, its, lvl, after) ==
